@@ -401,6 +401,18 @@ func (txn *Txn) modify(e *Entry) error {
 	if oldEntry, ok := txn.pendingWrites[string(e.Key)]; ok && oldEntry.version != e.version {
 		txn.duplicateWrites = append(txn.duplicateWrites, oldEntry)
 	}
+	// An entry set aside in duplicateWrites that has the same key AND version as e is superseded
+	// by e (the later call wins); drop it, otherwise it would be written after e and overwrite it.
+	if len(txn.duplicateWrites) > 0 {
+		kept := txn.duplicateWrites[:0]
+		for _, d := range txn.duplicateWrites {
+			if d.version == e.version && bytes.Equal(d.Key, e.Key) {
+				continue
+			}
+			kept = append(kept, d)
+		}
+		txn.duplicateWrites = kept
+	}
 	txn.pendingWrites[string(e.Key)] = e
 	return nil
 }
